@@ -969,6 +969,10 @@ func (c *Ctx) encodeTablesOf(fn *ssa.Function, st *slotTables, recvRecord string
 
 		t := st.table("encode", rec)
 		t.Funcs = appendUniq(t.Funcs, c.FuncName(fn))
+		if strings.HasSuffix(rec, "[]") && tfm == fm && !fm.hasAppend() {
+			// an element written into a buffer of its own: the size that buffer is made with is the element's size
+			t.ElemLen = appendUniq(t.ElemLen, c.symOffset(f, x, fm.InitLen))
+		}
 		nb0, ns0 := len(t.Bits), len(t.Segs)
 		defer func(t *recTable, nb0, ns0 int) {
 			for i := nb0; i < len(t.Bits); i++ {
